@@ -77,6 +77,16 @@ def gen_numeric(rng, spec, cfg, closure_names, i):
     cands = [n for n in spec["order"] if editable_numeric(spec, n)]
     if not cands:
         return None
+    fixed = [n for n in spec["order"] if n in closure_names
+             and (spec["objs"][n]["attrs"].get("fixed_nb_of_instances") or ["e"])[0] == "q"]
+    if fixed and rng.random() < 0.04:
+        # a user-defined number of instances raised (never lowered: that is a failing edit), possibly in percent
+        name = rng.choice(fixed)
+        cur = spec["objs"][name]["attrs"]["fixed_nb_of_instances"]
+        mag = convert(cur[1], cur[2], "dimensionless") * rng.choice([1.5, 2.0, 3.0])
+        v = ["q", mag * 100.0, "percent"] if rng.random() < 0.5 else ["q", mag, "dimensionless"]
+        return {"op": "set", "obj": name, "attr": "fixed_nb_of_instances", "value": v, "src": rng.choice(gen.SOURCES),
+                "label": f"fixed_nb_of_instances of {name} (edit {i})"}
     name = pick_obj(rng, spec, cands, closure_names)
     attr = rng.choice(editable_numeric(spec, name))
     cls = spec["objs"][name]["cls"]
@@ -295,13 +305,20 @@ def gen_list_op(rng, spec, cfg, closure_names, i, include_system=False):
     cur = list(spec["objs"][name]["attrs"][attr][1])
     pool = by_cls(spec, elt_classes)
     methods = ["append", "insert", "extend", "iadd"]
+    if len(cur) > 1:
+        methods += ["reverse", "sort", "alias_append2"]
     if cur:
         methods += ["pop", "remove", "delitem", "setitem"]
         if attr != "devices":
             methods += ["clear", "imul"]
     m = rng.choice(methods)
+    if len(cur) > 1 and rng.random() < 0.3:
+        m = rng.choice(["reverse", "sort", "alias_append2"])
     op = {"op": "list", "obj": name, "attr": attr, "method": m}
-    if m == "append":
+    if m == "alias_append2":
+        # two appends through one reference to the list (`l = step.jobs; l.append(a); l.append(b)`)
+        op["args"] = [rng.choice(pool), rng.choice(pool)]
+    elif m == "append":
         op["args"] = [rng.choice(pool)]
     elif m == "insert":
         op["args"] = [rng.randint(0, len(cur)), rng.choice(pool)]
@@ -475,10 +492,47 @@ def gen_delete_free(rng, spec, cfg, closure_names, i):
     return {"op": "delete", "obj": rng.choice(free)}
 
 
+def gen_install_service(rng, spec, cfg, closure_names, i):
+    """A new service installed on a server of the system, used by no job (yet)."""
+    servers = [n for n in by_cls(spec, ("Server", "BoaviztaCloudServer")) if n in closure_names]
+    if not servers:
+        return None
+    name = f"svc_n{i}"
+    cls = rng.choice(["WebApplication", "VideoStreaming"])
+    attrs = {"server": ["ref", rng.choice(servers)]}
+    if cls == "WebApplication":
+        attrs["technology"] = ["s", rng.choice(["php-symfony", "go-pgx", "python-django"])]
+    else:
+        attrs.update({a: gen.qv(rng, "VideoStreaming", a, False, 0.1) for a in NUM_DEFAULTS.get("VideoStreaming", {})})
+        attrs["base_ram_consumption"] = ["q", float(rng.choice([0.5, 1.0, 2.0])), "GB"]
+    return {"op": "compound", "tag": "install_service", "steps": [{"op": "create", "name": name, "cls": cls, "attrs": attrs}]}
+
+
+def gen_derived_input(rng, spec, cfg, closure_names, i):
+    """An input set to a quantity computed from another input of the model (`job2.data_stored = job.data_stored * 2`)."""
+    pairs = []
+    for n in spec["order"]:
+        if n not in closure_names:
+            continue
+        for a in editable_numeric(spec, n):
+            for m in spec["order"]:
+                if m != n and m in closure_names and spec["objs"][m]["cls"] == spec["objs"][n]["cls"] \
+                        and (spec["objs"][m]["attrs"].get(a) or ["e"])[0] == "q" and a != "server_utilization_rate":
+                    pairs.append((n, a, m))
+    if not pairs:
+        return None
+    n, a, m = rng.choice(pairs)
+    f = rng.choice([0.5, 2.0, 3.0])
+    src = spec["objs"][m]["attrs"][a]
+    return {"op": "set", "obj": n, "attr": a, "value": ["q", src[1] * f, src[2]], "derived_from": [m, a, f],
+            "label": f"{a} of {n} derived from {m} (edit {i})"}
+
+
 EDIT_MIX = [
     (gen_numeric, 34), (gen_categorical, 8), (gen_provider_switch, 2), (gen_hourly, 7), (gen_link, 10),
     (gen_new_storage, 2), (gen_list_assign, 8), (gen_assign_slice, 3), (gen_list_op, 10), (gen_group, 6), (gen_add_job, 4),
     (gen_add_step, 3), (gen_add_up, 3), (gen_remove_up, 2), (gen_permute_ups, 2), (gen_noop, 2), (gen_delete_free, 2),
+    (gen_install_service, 2), (gen_derived_input, 2),
 ]
 
 
@@ -554,7 +608,7 @@ def gen_list_op_wild(rng, spec, cfg, closure_names, i):
     absent = [p for p in pool if p not in cur]
     m = rng.choice(["append", "insert", "extend", "iadd", "imul", "pop", "remove", "delitem", "setitem", "clear",
                     "extend", "iadd", "imul", "remove", "pop", "extend_self", "iadd_self", "extend_from", "delslice",
-                    "setslice"])
+                    "setslice", "reverse", "sort"])
     op = {"op": "list", "obj": name, "attr": attr, "method": m}
     keep_one = attr == "devices"
     if m == "extend_from":
